@@ -20,7 +20,7 @@ RULE = ("one case = one interchange operation on one generated column in one of 
         "sizes) signature; non-trivial = the column holds a record")
 ASSUMPTIONS = ["Arrow's cast of flat values is the oracle for explicit type requests (plain pyarrow, no library code)"]
 CORRESPONDENCE = "m_list_struct_rows / m_init_from_ls (ExtArray.v: m_transpose_sl, m_transpose_ls) vs the real transpositions"
-LAYOUTS = [l for l in gen.LAYOUTS if l != "missing_hidden"]
+LAYOUTS = [l for l in gen.LAYOUTS if l != "missing_hidden"] + ["history", "history"]
 
 
 class _R:
@@ -70,6 +70,9 @@ def generate(ctx):
         corner = {0: "zero_rows", 1: "all_missing", 2: "all_empty"}.get(i % 40)
         inp = ao.mk_input(rng, max_rows=max_rows, recipes=LAYOUTS, corner=corner,
                           recipe=LAYOUTS[i % len(LAYOUTS)] if i < 2 * len(LAYOUTS) else None)
+        if inp.get("history_failed"):
+            cases.append(ao.history_failure_case(inp))
+            continue
         if inp["built"][0] != "ok":
             continue
         arr = inp["arr"]
